@@ -11,7 +11,7 @@ from vlib.hs import P, kf, ok, pick, why
 
 UE = P.get("unicode_escape", True)
 BASES = [[], ["a"], ["a", "$"], ["a", "b", "$"], ["$", "$"], ["a~b", "c/d", "$"], ["é", "$", "x"]]
-SUFFIXES = [[], "#", ["a"], ["0"], ["a", "b"], ["~", "/"], ["é"], [""], ["-"], ["01"]][: P.get("suffixes", 10)]
+SUFFIXES = [[], "#", ["a"], ["a "], ["0"], ["a", "b"], ["~", "/"], ["é"], [""], ["-"], ["01"], ["b", " \n"]][: P.get("suffixes", 12)]
 OFFSETS = [0, 1, -1, 2, -2, 10, -10, 12, -12, 123][: P.get("offsets", 10)]
 LASTS = [0, 2, 10, 1, 9, 12][: P.get("lasts", 6)]
 BASE = P.get("base")
@@ -83,3 +83,35 @@ def accepts_prefix(text: str) -> bool:
     """Native replay target for lane R: a draft-conforming relative pointer must be accepted and print back."""
     r = RelativeJSONPointer(text)
     return str(r) == text
+
+
+RAWTOKENS = ["\\u0041", "a\\", "%41", "\\\\", "\\ud83d\\ude00", "x%2Fy"]
+
+
+def tokens_once(ti: int, steps: int, oi: int, uri: bool, ue: bool, viastr: bool) -> bool:
+    """The base's reference tokens are final: to() must not decode them again, whatever decoding options it is given for the
+    relative pointer's own text (a base built from tokens that contain a backslash or a percent sign).
+
+    pre: 0 <= ti < len(RAWTOKENS)
+    pre: 0 <= steps <= 2
+    pre: 0 <= oi <= 2
+    post: _
+    """
+    tok = pick(RAWTOKENS, ti)
+    off = pick([0, 1, -1], oi)
+    steps = pick([0, 1, 2], steps)
+    base_tokens = [tok, "1", tok]
+    base = JSONPointer.from_parts(base_tokens, unicode_escape=False)
+    text = rel_text(steps, off, ["zz"])
+    remaining = base_tokens[: len(base_tokens) - steps]
+    if off and not O.is_index(remaining[-1]):
+        return ok(True)
+    try:
+        exp = O.relative_to(base_tokens, steps, off, ["zz"])
+    except O.RelError:
+        return ok(True)
+    try:
+        got = base.to(text, unicode_escape=ue, uri_decode=uri) if viastr else RelativeJSONPointer(text, unicode_escape=ue, uri_decode=uri).to(base, unicode_escape=ue, uri_decode=uri)
+    except (RelativeJSONPointerError, JSONPointerError) as e:
+        return ok(why(False, "raised", O.spell(base_tokens), text, type(e).__name__, str(e)))
+    return ok(why(str(got) == O.spell(exp), "base tokens were decoded again", O.spell(base_tokens), text, str(got), O.spell(exp)))
